@@ -7,7 +7,7 @@ META = {
     "rule": "V1 name class per Definition variant (path-sensitive walk of rename's match); "
             "V2 exactly-one-token gate; V3 locality gate on prepare_rename and rename; "
             "V4 sibling agreement of the gate sets; V5 server forwards new_name / maps Err; V6 a package's locality is computed from its own root path (build/packages) only; V7 both dependency tables of gleam.toml are followed. "
-            "An obligation is non-trivial when its verdict needed a path or dominance argument. V3 also: the package whose locality is asked is that of Definition::module(..) of find_def's result, not of the cursor's file. V8 every TextEdit of rename is built under an is_local test of the package of the file the use was found in.",
+            "An obligation is non-trivial when its verdict needed a path or dominance argument. V3 also: the package whose locality is asked is that of Definition::module(..) of find_def's result, not of the cursor's file. V8 every TextEdit of rename is built under an is_local test of the package of the file the use was found in. V9 is_local is computed from the text of the root path (no file-system call); V10 lower_vfs deals files to the longest matching root.",
     "explanation": "Decides the validation/gating clauses of C08 for every input at once by reading "
                    "the MIR of ide::ide::rename::{rename,prepare_rename,find_def} and the LSP handler: "
                    "each Definition variant must reach success only through a comparison of the lexed "
@@ -307,6 +307,7 @@ def run(F, res, tier):
     v5(F, res)
     v6(F, res)
     edits_only_in_local_files(F, res)
+    locality_comes_from_the_registered_path(F, res)
 
 
 # gleam.toml tables whose entries `gleam deps download` puts under build/packages (Gleam manifest format)
@@ -452,3 +453,48 @@ def edits_only_in_local_files(F, res, rule="V8"):
         res.ob(rule, "edit-in-local-file/%d" % sites.index((q, b, ln)), "the TextEdit built here goes into a file whose own package was tested to be local",
                ok, where=rn.loc(ln), how="a Package::is_local(..) == true test on the file's package encloses the construction" if ok else
                "no locality test of the edited file's package between the usage search and this edit (only the definition's package is tested)")
+
+
+def locality_comes_from_the_registered_path(F, res, rule="V9"):
+    """V9/V10: `is_local` is what every locality gate reads (V3, V8). It is decided in Server::assemble_graph from the *shape* of
+    the package's root path (<..>/build/packages/<dep> is a dependency), and the files are dealt to the roots in
+    Server::lower_vfs by longest matching prefix. Both steps are part of "no edit ever touches a file of a dependency":
+      V9  the flag handed to add_package depends on the text of the path only: on no call that asks the file system
+          (canonicalize, read_link, metadata ..): a dependency reached through a symbolic link would lose its shape and become local;
+      V10 lower_vfs tries the roots longest first (a sort by length, or a max_by_key over the matching ones): with another order
+          an enclosing project's root swallows build/packages/<dep> of a project nested in it, and the dependency's files belong
+          to a local package."""
+    ag = F.fn("glas::server::Server::assemble_graph")
+    d = FL.Defs(ag)
+    FSCALLS = ("canonicalize", "read_link", "metadata", "symlink_metadata", "exists", "try_exists", "is_dir", "is_file", "is_symlink", "read_dir")
+    adds = [(b, t) for b, t in ag.calls() if (callee(t) or "").endswith("PackageGraph::add_package")]
+    okp, why = bool(adds), []
+    for b, t in adds:
+        dep = FL.depends(F, ag, d, t["args"][-1])
+        fs = sorted(c for c in dep["calls"] if c.rsplit("::", 1)[-1] in FSCALLS or c.startswith("fs::"))
+        if fs:
+            okp = False
+            why.append("is_local at line %d depends on %s" % (t["ln"], fs))
+    res.ob(rule, "assemble_graph/locality-from-path-text", "the is_local flag of a package is computed from the text of its root path alone (no call "
+           "that resolves links or asks the file system takes part)", okp, where=ag.loc(), how="; ".join(why) or "%d add_package sites, flag depends on path text only" % len(adds))
+    lv = F.fn("glas::server::Server::lower_vfs")
+    dl = FL.Defs(lv)
+    srt = []
+    for b, t in lv.calls():
+        c = FL.short(callee(t) or callee_def(t) or "").rsplit("::", 1)[-1]
+        if c in ("sort_by_key", "sort_by", "sort_unstable_by_key", "sort_unstable_by", "sort_by_cached_key", "max_by_key", "min_by_key", "max_by"):
+            # the key of the order is a length
+            lens = False
+            for ta in (t.get("fn") or {}).get("targs", []) or []:
+                for cp in F.closures_of(lv.path):
+                    sp = F.fns[cp].d.get("span") or {}
+                    if ("%s:" % sp.get("lo")) in ta or str(sp.get("lo")) in ta:
+                        lens = lens or any(FL.short(callee(t2) or callee_def(t2) or "").rsplit("::", 1)[-1] in ("len", "count") for _b2, t2 in F.fns[cp].calls())
+            if lens:
+                srt.append(b)
+    # the loop that deals the files (the insertion into a FileSet) comes after the ordering
+    ins = [b for b, t in lv.calls() if (callee(t) or "").endswith("FileSet::insert")]
+    ok10 = bool(srt) and bool(ins) and all(any(lv.dominates(s_, i) for s_ in srt) or any(lv.can_reach(h, [s_]) for s_ in srt for h in [i] if False) for i in ins)
+    # max_by_key form: the chosen root originates from the selection itself
+    res.ob("V10", "lower_vfs/longest-root-first", "lower_vfs orders (or selects) the candidate roots by their length before it deals a file to the first "
+           "match", ok10, where=lv.loc(), how="orderings by a length: %d, FileSet insertions: %d, each after one: %s" % (len(srt), len(ins), ok10))
